@@ -145,7 +145,13 @@ def run_family(prog, fam_name, setup, post, contracts=None, force_contract=(), b
         fam.seconds = time.time() - t0
         return fam
     fam.paths = len(results)
+    orphans = stats.pop("orphans", [])
     fam.stats = stats
+    for oi, (opath, dead) in enumerate(orphans):
+        for (label, pc, cond, info) in dead:
+            ob = Obl(f"{fam_name}/{label}@dead{oi}", props_for_label(label), list(pc), cond, kind="pre", info=info,
+                     bounded=bounded, path_labels=opath.labels)
+            fam.obls.append(ob)
     for idx, res in enumerate(results):
         I = res.interp
         facts = I.bi.literal_facts()
